@@ -11,6 +11,12 @@ Schemas are built from a JSON spec, scenarios are lists of JSON steps, so every 
            | {"op": "assign", "path": "c.ri", "value": ...}
            | {"op": "insert", "path": "c", "how": append|insert|setitem|extend|iadd|assign, "as": dict|config,
               "item": {...}}
+           | {"op": "reinsert", "path": "c", "how": pop-append|setitem-other|slice-reorder|extend-proxy|...,
+              "edit": {"kind": "assign"|"clear", "key": k, "value": v} | null}
+             (item lst[1] - already held, or popped first, or held by the same list of a second configuration of
+             the schema ("foreign") - is edited IN PLACE, then put into the list (again); if the call returns and
+             the object is an item of the list, it must satisfy the state clauses; "-proxy" forms hand the items
+             over inside a ListProxy of the same ListField, e.g. lst.extend(lst.copy()), cfg.c = other_cfg.c)
 
 Validators are registered with cincoconfig.validator(schema) / validator(field); they are instrumented (every call
 is logged with the identity of the configuration and the value) and *pure*: a field validator fails iff
@@ -118,11 +124,25 @@ def build_schema(block, log):
             schema._add_field(f["k"], _make_field(f, log))
     for v in block.get("validators", []):
         @cc.validator(schema)
-        def schema_validator(cfg, vid=v["id"], key=v["field"], bad=v["bad"]):
-            log.append(("S", vid, id(cfg)))
-            if getattr(cfg, key) == bad:
-                raise ValueError("instrumented schema validator %s rejects %s == %r" % (vid, key, bad))
+        def schema_validator(cfg, sv=v):
+            log.append(("S", sv["id"], id(cfg)))
+            if _sv_rejects(sv, cfg):
+                raise ValueError("instrumented schema validator %s rejects %s" % (sv["id"], _sv_text(sv)))
     return schema
+
+
+def _sv_rejects(sv, cfg):
+    """pure predicate of a schema validator: {"field": k, "bad": v} rejects cfg.k == v;
+    {"field": a, "gt": b} (cross-field) rejects cfg.a > cfg.b"""
+    a = getattr(cfg, sv["field"])
+    if "gt" in sv:
+        b = getattr(cfg, sv["gt"])
+        return a is not None and b is not None and a > b
+    return a == sv["bad"]
+
+
+def _sv_text(sv):
+    return "%s > %s" % (sv["field"], sv["gt"]) if "gt" in sv else "%s == %r" % (sv["field"], sv["bad"])
 
 
 # -------------------------------------------------------------------------------------------------- oracle
@@ -179,10 +199,10 @@ def check_config(block, cfg, logset, tree, where, path, out, item=False, disable
         if logset is not None and ("S", sv["id"], id(cfg)) not in logset:
             out.append({"ob": ob["sv-run"], "wkey": where,
                         "what": "schema validator %s of configuration %s was not run" % (sv["id"], path or "<root>")})
-        if getattr(cfg, sv["field"]) == sv["bad"]:
-            out.append({"ob": ob["sv-pass"], "wkey": where,
-                        "what": "schema validator %s of configuration %s rejects %s == %r"
-                                % (sv["id"], path or "<root>", sv["field"], sv["bad"])})
+        if _sv_rejects(sv, cfg):
+            out.append({"ob": ob["sv-pass"], "wkey": where + (":cross-field" if "gt" in sv else ""),
+                        "what": "schema validator %s of configuration %s rejects %s"
+                                % (sv["id"], path or "<root>", _sv_text(sv))})
 
 
 # --------------------------------------------------------------------------------------------------- steps
@@ -302,6 +322,82 @@ def run_step(world, step):
             raise KeyError(how)
         checked = (block, lambda: holder[0][idx], step["item"], "item(%s)" % lfield["t"],
                    "%s[%d]" % (step["path"], idx), True)
+    elif op == "reinsert":
+        try:
+            lst, block = _navigate(cfg, world.spec, step["path"])
+            parent_path, _, key = step["path"].rpartition(".")
+            parent, pblock = (_navigate(cfg, world.spec, parent_path) if parent_path else (cfg, world.spec))
+        except (TypeError, IndexError):
+            return "setup-failed", []
+        if lst is None or len(lst) < 2:
+            return "setup-failed", []
+        lfield = next(f for f in pblock["fields"] if f["k"] == key)
+        how, edit = step["how"], step.get("edit")
+        other = None
+        if "foreign" in how:
+            # a second configuration of the same schema; its list (a ListProxy of the same ListField) holds the item
+            other_cfg = world.schema()
+            other_cfg.load_tree(copy.deepcopy(step["tree"]))
+            other = _navigate(other_cfg, world.spec, step["path"])[0]
+            it = other[1]
+        else:
+            it = lst.pop(1) if how.startswith("pop-") else lst[1]  # the item that is edited and re-inserted
+        try:
+            if edit and edit["kind"] == "assign":
+                setattr(it, edit["key"], copy.deepcopy(edit["value"]))
+            elif edit and edit["kind"] == "clear":
+                getattr(it, edit["key"]).clear()                   # in-place: no validation happens
+        except ValidationError:
+            return "setup-failed", []
+        holder = [lst]
+        opname = "re-" + how
+        if how == "pop-append" or how == "append-held":
+            call = lambda: lst.append(it)                          # noqa: E731
+        elif how == "pop-insert" or how == "insert-held":
+            call = lambda: lst.insert(0, it)                       # noqa: E731
+        elif how == "setitem-other":
+            call = lambda: lst.__setitem__(0, it)                  # noqa: E731   lst[0] = lst[1]
+        elif how == "setitem-self":
+            call = lambda: lst.__setitem__(1, it)                  # noqa: E731   lst[1] = lst[1]
+        elif how == "slice-same":
+            objs = list(lst)
+            call = lambda: lst.__setitem__(slice(None), objs)      # noqa: E731   lst[:] = [same objects]
+        elif how == "slice-reorder":
+            objs = [lst[1], lst[0]]
+            call = lambda: lst.__setitem__(slice(0, 2), objs)      # noqa: E731   lst[0:2] = [lst[1], lst[0]]
+        elif how == "slice-tuple":
+            objs = (lst[1], lst[0])
+            call = lambda: lst.__setitem__(slice(0, 2), objs)      # noqa: E731
+        elif how == "extend-held":
+            call = lambda: lst.extend([it])                        # noqa: E731
+        elif how == "iadd-held":
+            call = lambda: lst.__iadd__([it])                      # noqa: E731
+        elif how == "assign-list":
+            objs = [lst[1], lst[0]]
+
+            def call():
+                setattr(parent, key, objs)
+                holder[0] = getattr(parent, key)
+        elif how.split("-", 1)[1] in ("proxy", "foreign-proxy"):
+            if other is None:
+                other = lst.copy()                                 # a ListProxy of the same field, same objects
+            verb = how.split("-", 1)[0]
+
+            def call():
+                if verb == "extend":
+                    lst.extend(other)
+                elif verb == "iadd":
+                    lst.__iadd__(other)
+                elif verb == "slice":
+                    lst.__setitem__(slice(None), other)
+                else:
+                    setattr(parent, key, other)
+                    holder[0] = getattr(parent, key)
+        else:
+            raise KeyError(how)
+        # state clauses only: the item was validated when it first went in; what matters is that it is held to
+        # the rule again now that it has been edited ("was run" would flag a harmless, unchanged item)
+        checked = (block, lambda: it, "<state-only>", "item(%s)" % lfield["t"], "%s[re]" % step["path"], True)
     else:
         raise KeyError(op)
 
@@ -313,13 +409,20 @@ def run_step(world, step):
         outcome = "raised"
     except Exception as exc:    # noqa: BLE001 - the property demands a ValidationError
         outcome = "raised"
-        findings.append({"ob": (OB_ITEM if op == "insert" else OB)["exc"],
+        findings.append({"ob": (OB_ITEM if op in ("insert", "reinsert") else OB)["exc"],
                          "wkey": "%s:%s" % (opname, type(exc).__name__),
                          "what": "%s raised %s (%s) instead of a ValidationError" % (opname, type(exc).__name__, exc)})
     if outcome == "ok":
         block, getter, tree, where, path, item = checked
         out = []
-        check_config(block, getter(), set(world.log), tree, where, path, out, item)
+        if tree == "<state-only>":
+            target = getter()
+            if any(x is target for x in holder[0]):     # it is (again) an item of the configuration list
+                check_config(block, target, None, None, where, path, out, item)
+            for fd in out:                               # failing input class = the form of (re-)insertion
+                fd["wkey"] = "edited-item"
+        else:
+            check_config(block, getter(), set(world.log), tree, where, path, out, item)
         for fd in out:
             fd["wkey"] = "%s:%s" % (opname, fd["wkey"])
             fd["what"] = "%s returned normally but %s" % (opname, fd["what"])
@@ -413,7 +516,7 @@ FLAG_STATES = [(True, None), (False, None), (True, False), (False, True)]
 FLAG_VARIANTS = [("none", None, None)] + [(w, d, t) for w in ("self", "child", "parent") for d, t in FLAG_STATES]
 
 
-def level_block(i, flag_default=None, child=None, dflt=None):
+def level_block(i, flag_default=None, child=None, dflt=None, cross=False):
     fields = []
     if flag_default is not None:
         fields.append({"k": "enabled", "t": "Flag", "default": flag_default})
@@ -437,7 +540,8 @@ def level_block(i, flag_default=None, child=None, dflt=None):
         fields.append(child)
     return {"fields": fields,
             "validators": [{"id": "sv%d.a" % i, "field": "od", "bad": 666},
-                           {"id": "sv%d.b" % i, "field": "rs", "bad": "POISON"}]}
+                           {"id": "sv%d.b" % i, "field": "rs", "bad": "POISON"}]
+            + ([{"id": "sv%d.x" % i, "field": "ri", "gt": "od"}] if cross else [])}
 
 
 def make_case(shape, ld, dname, flag):
@@ -657,11 +761,71 @@ def _plan(tier):
                 for how, as_ in forms:
                     yield ((shape, dname, flag, how, as_), spec,
                            [setup, {"op": "insert", "path": path, "how": how, "as": as_, "item": holder}])
+    # R: re-insertion of item configurations that were edited in place while (or after) the list held them
+    for shape in REINSERT_SHAPES:
+        spec, setup_tree, path = reinsert_case(shape)
+        for how in REINSERT_HOWS:
+            for ename, disabled_item, edit in REINSERT_EDITS:
+                tree = setup_tree
+                if disabled_item:
+                    tree = copy.deepcopy(setup_tree)
+                    _innermost_lists(tree, shape)[0][1] = {"enabled": False}   # exempt while switched off
+                step = {"op": "reinsert", "path": path, "how": how, "edit": edit}
+                if "foreign" in how:
+                    step["tree"] = tree
+                yield ("reinsert", shape, how, ename), spec, [_load_step("load_tree", tree), step]
     # C: histories
     spec, ops = _history_ops()
     seqs = [[a] for a in range(len(ops))] + [[a, b] for a in range(len(ops)) for b in range(len(ops))]
     for seq in seqs:
         yield ("history", tuple(seq)), spec, [ops[i] for i in seq]
+
+
+REINSERT_SHAPES = [("listS",), ("listT",), ("sub", "listS"), ("ctype", "listT"), ("listS", "listT"), ("listT", "listS")]
+REINSERT_HOWS = ["pop-append", "pop-insert", "append-held", "insert-held", "setitem-other", "setitem-self",
+                 "slice-same", "slice-reorder", "slice-tuple", "extend-held", "iadd-held", "assign-list",
+                 "extend-proxy", "iadd-proxy", "slice-proxy", "assign-proxy",
+                 "extend-foreign-proxy", "iadd-foreign-proxy", "slice-foreign-proxy", "assign-foreign-proxy"]
+REINSERT_EDITS = [        # (name, item starts switched off?, edit)
+    ("none", False, None),
+    ("cross-field", False, {"kind": "assign", "key": "ri", "value": 50}),          # ri > od: only sv.x objects
+    ("schema-validator", False, {"kind": "assign", "key": "od", "value": 666}),
+    ("clear:rl", False, {"kind": "clear", "key": "rl"}),
+    ("clear:rd", False, {"kind": "clear", "key": "rd"}),
+    ("clear:rlp", False, {"kind": "clear", "key": "rlp"}),
+    ("clear:rdp", False, {"kind": "clear", "key": "rdp"}),
+    ("switch-on-unset", True, {"kind": "assign", "key": "enabled", "value": True}),   # required fields never set
+]
+
+
+def _innermost_lists(tree, shape):
+    nodes = [tree]
+    for t in shape[:-1]:
+        nodes = [n["c"] for n in nodes] if t in ("sub", "ctype") else [i for n in nodes for i in n["c"]]
+    return [n["c"] for n in nodes]
+
+
+def reinsert_case(shape):
+    """-> (spec, complete set-up tree, path of the innermost list): the item schema (innermost level) has a
+    feature flag (default on) and the cross-field validator ri <= od besides the usual fields"""
+    d = len(shape)
+
+    def block(i):
+        child = {"k": "c", "t": shape[i], "b": block(i + 1)} if i < d else None
+        return level_block(i, flag_default=True if i == d else None, child=child, cross=(i == d))
+
+    def tree(i):
+        t = copy.deepcopy(COMPLETE)
+        if i < d:
+            t["c"] = tree(i + 1) if shape[i] in ("sub", "ctype") else [tree(i + 1), tree(i + 1)]
+        return t
+
+    path = ""
+    for i, t in enumerate(shape):
+        path = (path + "." if path else "") + "c"
+        if t in ("listS", "listT") and i < d - 1:
+            path += "[0]"
+    return block(0), tree(0), path
 
 
 def rac(tier: str, seed: int) -> dict:
@@ -680,10 +844,12 @@ def rac(tier: str, seed: int) -> dict:
         bound="shapes: every path over {sub, make_type, ListField(Schema), ListField(config type)} of depth <= 2 "
               "(21) + 12 of depth 3; 24 deficiencies; 13 flag variants; load_tree, loads in json/yaml/xml/bson/"
               "pickle, load(file); priors fresh / after a complete load / after a failed load; 6 insertion forms x "
-              "dict/config items on 6 list shapes; histories of <= 3 operations out of 18 on one schema.  quick: "
+              "dict/config items on 6 list shapes; re-insertion of held / popped item objects edited in place: %d "
+              "forms x %d edits (cross-field validator, schema validator, required list/dict emptied in place, "
+              "switched-off item with unset required fields switched on) x 6 list shapes; histories of <= 3 operations out of 18 on one schema.  quick: "
               "full flag cross on depth <= 1, 3 flag variants and the two innermost levels on depth 2, all formats "
               "on depth <= 1 and one rotating format on the innermost level of depth 2, histories of length <= 2 exhaustive + 300 sampled "
-              "of length 3; thorough: full crosses until the budget is used",
+              "of length 3; thorough: full crosses until the budget is used" % (len(REINSERT_HOWS), len(REINSERT_EDITS)),
         tier=tier, seed=seed)
     with sandbox() as tmp:
         n = 0
